@@ -70,17 +70,21 @@ class _InMemoryConsumer(ConsumerT):
         [self._queue.delayed.pop(i) for i in pop_soon]
 
     def __consume_normal(self) -> Message | None:
-        try:
-            msg = self._queue.simple.get_nowait()
-        except asyncio.QueueEmpty:
-            return None
-        if msg.parameters.is_overdue:  # ttl expired
-            self._queue.dead.append(msg)
-            return None
-        if self.topics and msg.key.topic not in self.topics:  # topics don't match
-            self._queue.simple.put_nowait(msg)
-            return None
-        return msg
+        # look through the whole queue once, so that messages of other topics
+        # in front can't hide a suitable message from this consumer
+        for _ in range(self._queue.simple.qsize()):
+            try:
+                msg = self._queue.simple.get_nowait()
+            except asyncio.QueueEmpty:  # pragma: no cover
+                return None
+            if msg.parameters.is_overdue:  # ttl expired
+                self._queue.dead.append(msg)
+                continue
+            if self.topics and msg.key.topic not in self.topics:  # topics don't match
+                self._queue.simple.put_nowait(msg)
+                continue
+            return msg
+        return None
 
     def __consume_delayed(self) -> Message | None:
         for time_ in sorted(self._queue.delayed):
